@@ -73,7 +73,9 @@ impl ControlMessage {
         if let Some(first) = avp_and_err.first() {
             match first {
                 Ok(AVP::MessageType(_)) => (),
-                _ => return Err(vec![DecodeError::ControlMessageTypeNotFirst]),
+                // An undecodable first AVP is reported below as its own error
+                Err(_) => (),
+                Ok(_) => return Err(vec![DecodeError::ControlMessageTypeNotFirst]),
             }
         }
 
